@@ -708,7 +708,23 @@ def scale_case(ctx, model, rng, fam):
         ctx.count(f"disagree:{fam}:scale")
         # recorded finding: the absolute band |p| <= 1e-7 of `_dep_cubic_root` (model and code agree there - checked above -, the band itself is not
         # scale-equivariant); classified only when an entry of THIS case is in the band and only for the equivariance comparison
-        kid = KNOWN_BAND if fam == "sql2sqabs" and "band" in (sc.get("_cubic", {}).get("branch") or []) else None
+        kid = None
+        if fam == "sql2sqabs":
+            # exactly this finding: every entry that breaks equivariance is one whose SCALED |p| is inside the band (alpha > 0) while the
+            # unscaled one is outside; any other entry that differs keeps the disagreement unclassified
+            with warnings.catch_warnings():
+                warnings.simplefilter("ignore")
+                c0 = dict(case)
+                pc.model_eval(model, c0)
+            bs, b0 = sc.get("_cubic", {}).get("branch") or [], c0.get("_cubic", {}).get("branch") or []
+            wv = np.asarray(sc["w"]) if sc.get("w") is not None else np.ones(n)
+            apos = (float(sc["lam"]) * 4 * sc["_scale"] * wv) > 0
+            cross = np.array([bool(a) and x == "band" and y != "band" for a, x, y in zip(apos, bs, b0)]) if len(bs) == n and len(b0) == n else np.zeros(n, bool)
+            top = max(float(np.max(np.abs(ps), initial=0.0)), float(np.max(np.abs(c * p0), initial=0.0)))
+            bad = np.abs(np.asarray(ps) - c * np.asarray(p0)) > 10 * rtol * max(n, 1) * (c + top)
+            if np.any(bad) and np.all(cross[bad]):
+                kid = KNOWN_BAND
+                ctx.count("scale:sql2sqabs:band-crossing-entries-classified")
         ctx.disagree(f"prox.{fam}.scale.equivariance", dict(_public(sc), k=k), pc._js(ps), pc._js(c * p0), oracle=orc, known_id=kid,
                      note=f"prox(2^{k} v, scaled parameters) is not 2^{k} prox(v): an absolute threshold in the implementation")
 
